@@ -430,7 +430,20 @@ TABLE_ATTRS = ('_lead_in', '_lead_out', '_bursts', '_middle_timings', '_repeat_l
 
 
 def snapshot(obj):
-    return json.dumps([getattr(obj, a, None) for a in TABLE_ATTRS], default=str)
+    """tables plus every plain-data attribute of the object / class (hidden state such as a stored first frame, a
+    toggle counter, a variant switch shows up as a difference before/after the traced call)"""
+    d = {}
+    src = obj.__dict__ if not isinstance(obj, type) else {k: v for c in obj.__mro__[:-1] for k, v in c.__dict__.items()}
+    for k, v in src.items():
+        if callable(v) or isinstance(v, (property, classmethod, staticmethod)) or k.startswith('__') or k in ('_xml', '_parent'):
+            continue
+        if 'lock' in k.lower() or k.endswith('__last_code'):
+            continue
+        try:
+            d[k] = json.dumps(v, default=lambda o: '<%s>' % type(o).__name__)
+        except Exception:
+            d[k] = '<%s>' % type(v).__name__
+    return json.dumps([[getattr(obj, a, None) for a in TABLE_ATTRS], sorted(d.items())], default=str)
 
 
 def param_values(cls, rnd, mode):
@@ -474,7 +487,7 @@ def trace_encode_once(pyir, cls, vals, rc):
     if path:
         raise Opaque('encode() branches on a parameter: %s' % json.dumps(path[0][0])[:120])
     if snapshot(cls) != before_c or snapshot(inst) != before_i:
-        raise Opaque('encode() changes the class/instance tables')
+        raise Opaque('encode() changes tables or keeps state on the class/instance')
     if not packets:
         raise Opaque('encode() does not call _build_packet')
     frames = [list(f) for f in code.normalized_rlc]
@@ -561,6 +574,7 @@ def trace_decode_path(pyir, cls, frame_code, with_last, script, base_error=None)
         params[name] = w
     code = IRCode(inst, list(frame_code['frame']), [list(frame_code['frame'])], params)
     code_id = id(code)
+    orig_data = dict(code._data)
     last = None
     if with_last:
         lp = dict(frequency=inst.frequency)
@@ -599,6 +613,8 @@ def trace_decode_path(pyir, cls, frame_code, with_last, script, base_error=None)
 
     def code_eq(a, b):
         if ST.depth == 0 and isinstance(b, IRCode) and ({id(a), id(b)} == {code_id, id(last)}):
+            if set(code._data) != set(orig_data) or any(code._data[k] is not orig_data[k] for k in orig_data):
+                raise Opaque('the decoded fields are modified before the code is compared with the held one')
             ST.depth += 1
             try:
                 c = o_eq(a, b)
@@ -646,12 +662,14 @@ def trace_decode_path(pyir, cls, frame_code, with_last, script, base_error=None)
             except Opaque:
                 raise
             except Exception as e:
+                if not isinstance(e, pyir.IRException):
+                    raise Opaque('a path of decode() raises %s (a value-dependent lookup or attribute the tracer cannot follow)' % e.__class__.__name__)
                 leaf = ('raise', e.__class__.__name__)
         finally:
             ST.active = False
         path, script_after = ST.path, ST.script
     if snapshot(cls) != before_c or snapshot(inst) != before_i:
-        raise Opaque('decode() changes the class/instance tables')
+        raise Opaque('decode() changes tables or keeps state on the class/instance')
     if base_error is None and not calls:
         raise Opaque('decode() does not call the base decoder')
     return path, (leaf, list(effects)), script_after
